@@ -382,7 +382,7 @@ func (p *Printer) writeLit(s string) {
 	// If p.tabWriter is nil, this is the nested printer being used to print
 	// <<- heredoc bodies, so the parent printer will add the escape bytes
 	// later.
-	if p.tabWriter != nil && strings.Contains(s, "\t") {
+	if p.tabWriter != nil && strings.ContainsAny(s, "\t\f\v") {
 		p.w.WriteByte(tabwriter.Escape)
 		defer p.w.WriteByte(tabwriter.Escape)
 	}
